@@ -33,7 +33,7 @@ TIERS = {
                   RowSets='"full", "nocov", "abort", "nm72", "covabort"', IterSets='"0-5-10", "0"', AllPhi="FALSE"),
     "thorough": dict(MaxGenTables=3, MaxGenRows=3, MaxTheta=4, OmegaKinds='"d1", "d2", "b2", "b2d1", "d1b2"', SigmaKinds='"d1", "d2", "b2"',
                      FixPats='"none", "th1", "thlast", "om", "omblk1", "sg"', MaxSteps=2,
-                     RowSets='"full", "nocov", "abort", "nm72", "covabort"', IterSets='"0-5-10", "0"', AllPhi="TRUE"),
+                     RowSets='"full", "nocov", "abort", "nm72", "covabort"', IterSets='"0-5-10", "0"', AllPhi="FALSE"),
 }
 
 
